@@ -22,7 +22,7 @@ package storage
 // ---- C12: reservoir dissolved constituent, decay disabled: delegates to the lumped transport ----
 
 //@ func storageDissolvedDecay(inflowMass, storageInflow, storageOutflow, storageVolume, initialStoredMass, deltaT, doStorageDecay, annualReturnInterval, bankFullFlow, medianFloodResidenceTime, decayedMass, outflowMass) returns (rStored)
-//@   locals nDays, idx, i, upstreamFlowMass, storageVol, outflowRate, availLoadForOutflow, dailyDecayedConstituentLoad, totalConstsituentLoad, propLost, concentration, constituentRateInOutflow
+//@   locals nDays, idx, i@loop, upstreamFlowMass, storageVol, outflowRate, availLoadForOutflow, dailyDecayedConstituentLoad, totalConstsituentLoad, propLost, concentration, constituentRateInOutflow
 //@   kernel
 //@   states initialStoredMass
 //@   noalias
@@ -39,7 +39,7 @@ package storage
 // ---- C12: reservoir particulate trapping ----
 
 //@ func storageParticulateTrapping(inflowMass, storageInflow, storageOutflow, storageVolume, initialStoredMass, deltaT, reservoirCapacity, reservoirLength, subtractor, multiplier, lengthDischargeFactor, lengthDischargePower, trappedMass, outflowLoad) returns (rStored)
-//@   locals n, idx, i, incomingMass, inflowRate, damTrappingPC, sedimentationIndex, dailyTrappedConstituentLoad, storageOutflowRate, storageWorkingVolume, massOutRate, concentration
+//@   locals n, idx, i@loop, incomingMass, inflowRate, damTrappingPC, sedimentationIndex, dailyTrappedConstituentLoad, storageOutflowRate, storageWorkingVolume, massOutRate, concentration
 //@   kernel
 //@   states initialStoredMass
 //@   noalias
@@ -60,7 +60,7 @@ package storage
 // (rain/evaporation accumulators in m^3), volume >= 0 and 0 <= timeRemaining <= deltaT.
 
 //@ func storageWaterBalance(rainfallTS, petTS, inflowTS, demandTS, targetMinimumVolume, targetMinimumCapacity, initialVolume, initialLevel, initialArea, deltaT, nLVA, levels, volumes, areas, minRelease, maxRelease, volumeTS, outflowTS, rainfallVolume, evaporationVolume) returns (volume, level, area)
-//@   locals idxCurve0, idxCurveN, volCurveMin, volCurveMax, maxSpill, cappedPiecewise, res, err, releaseRate, minRel, maxRel, releaseRatesCloseEnough, absError, relError, err, n, nSubtimeSteps, idx, i, timeRemaining, subtimestep, outflowVolume, targetMinCap, targetMaxVol, autoAdjustDemand, inflow, origDemand, demand, rainfallVolForTimestep, evaporationVolForTimestep, rainfallPerSecond, petPerSecond, netAtmosphericFluxDepthPerSecond, estOutflow, testVol, avgOutflow, avgArea, estOutflowAfter, overTopRatio, excessOutflow, excessOutflowVolume, outflowRate
+//@   locals idxCurve0, idxCurveN, volCurveMin, volCurveMax, maxSpill, cappedPiecewise, res, err, releaseRate, minRel, maxRel, releaseRatesCloseEnough, absError, relError, err, n, nSubtimeSteps, idx, i@loop, timeRemaining, subtimestep, outflowVolume, targetMinCap, targetMaxVol, autoAdjustDemand, inflow, origDemand, demand, rainfallVolForTimestep, evaporationVolForTimestep, rainfallPerSecond, petPerSecond, netAtmosphericFluxDepthPerSecond, estOutflow, testVol, avgOutflow, avgArea, estOutflowAfter, overTopRatio, excessOutflow, excessOutflowVolume, outflowRate
 //@   loopsigs 99c00234 fa233494 06be35b4
 //@   canary [C13.canary-storage] implies(rainfallTS.len > 0, volumeTS.at(0) == initialVolume)
 //@   kernel
